@@ -122,15 +122,15 @@ package cache
 //@ spec knownInfo(fs *ReadOnlyFS, name string) := fs.cacheInfo[name]
 //@ spec infoDir(w int, info hackpadfs.FileInfo) := retW("hackpadfs.(FileInfo).IsDir", 0, w, info)
 
-//@ spec pathLocked(fs *ReadOnlyFS, name string) := gbool("pathheld", uf("plkey", fs.pathlock, name))
+//@ spec pathLocked(fs *ReadOnlyFS, name string) := pathlock.plHeld(fs.pathlock, name)
 //@ func (fs *ReadOnlyFS) Open(name string) (f hackpadfs.File, err error)
 //@   props C10 C11 C16 C17 C14 C04 C05
 //@   requires roOK(fs)
-//@   requires "path-not-locked-by-caller" !pathLocked(fs, name)
-//@   modifies world(), mapOf(fs.cacheInfo), mapOf(fs.cached), gbool("pathheld", uf("plkey", fs.pathlock, name))
+//@   requires "path-not-locked-by-caller" pathlock.plInv(fs.pathlock) && !pathLocked(fs, name)
+//@   modifies world(), mapOf(fs.cacheInfo), mapOf(fs.cached), mapOf(fs.pathlock.pathLocks), held(pathlock.plMu(fs.pathlock, name))
 //@   callsite copyFile requires "copy-under-the-path-lock" [C11] pathLocked(fs, name)
 //@   callsite Store requires "marked-under-the-path-lock" [C11] pathLocked(fs, name)
-//@   ensures "path-lock-released" [C11] !pathLocked(fs, name)
+//@   ensures "path-lock-released" [C11] !pathLocked(fs, name) && pathlock.plInv(fs.pathlock) && pathlock.plOthersSame(fs.pathlock, name)
 //@   ensures "stat-error" implies(!old(known(fs, name)) && old(srcOpenErr(world(), fs, name)) != nil, f == nil && err == old(srcOpenErr(world(), fs, name)) && completeSame(fs))
 //@   ensures "directory" [C16 C17] implies(old(known(fs, name)) && old(infoDir(world(), knownInfo(fs, name))), err == nil && isType(f, *dir) && f.(*dir) != nil && fresh(f.(*dir)) &&
 //@                     f.(*dir).fs == fs && f.(*dir).name == name && f.(*dir).offset == 0 && !f.(*dir).closed && world() == old(world()) && completeSame(fs))
@@ -145,4 +145,14 @@ package cache
 //@                     !old(apply(fs.options.RetainData, name, knownInfo(fs, name))), f == old(srcOpenF(world(), fs, name)) && err == nil && completeSame(fs))
 //@   ensures "gate" [C04 C05] implies(!VP(name) && !old(known(fs, name)), f == nil && errIs(err, hackpadfs.ErrInvalid) && world() == old(world()) && completeSame(fs) && infoSame(fs))
 //@   ensures "monotone" [C11] completeGrowsBy(fs, name)
+//@   nopanic
+
+// The constructor establishes what Stat and Open require: both file systems set, a retain policy, nothing remembered,
+// nothing marked complete, no path locked.
+//@ func NewReadOnlyFS(source hackpadfs.FS, cache writableFS, options ReadOnlyOptions) (fs *ReadOnlyFS, err error)
+//@   props C10 C11
+//@   requires source != nil && cache != nil
+//@   ensures "ready" [C10 C11] err == nil && fs != nil && fresh(fs) && roOK(fs) && fs.sourceFS == source && fs.cacheFS == cache &&
+//@                     forall(k, string, !known(fs, k) && !complete(fs, k) && !pathLocked(fs, k)) && pathlock.plInv(fs.pathlock)
+//@   ensures "policy" [C10] implies(options.RetainData != nil, fs.options.RetainData == options.RetainData)
 //@   nopanic
